@@ -185,6 +185,58 @@ fn explore_shared(threads: usize, long_needle: bool, bound: Option<usize>) -> Ou
     Outcome { executions: executions.load(Ordering::Relaxed), detect_hist: [0; 8], mismatches: m }
 }
 
+/// (iv) the free functions memmem::find / rfind called concurrently with
+/// different needles (and repeatedly with the same one): any process-wide
+/// state behind them (a memo of the last searcher, statistics, ...) is shared
+/// by these calls.
+fn explore_free_functions(programs: &[Vec<usize>], bound: Option<usize>) -> Outcome {
+    use memchr::memmem;
+    const NEEDLES: [&[u8]; 3] = [b"needle-A", b"NEEDLE.b", b"zq"];
+    let executions = Arc::new(AtomicU64::new(0));
+    let mismatches: Arc<Mutex<Vec<String>>> = Arc::new(Mutex::new(vec![]));
+    let (e2, m2) = (executions.clone(), mismatches.clone());
+    let programs: Arc<Vec<Vec<usize>>> = Arc::new(programs.to_vec());
+    let mut b = loom::model::Builder::new();
+    b.preemption_bound = bound;
+    b.max_branches = 200_000;
+    b.check(move || {
+        let mut hs = vec![];
+        for (t, prog) in programs.iter().enumerate() {
+            let prog = prog.clone();
+            let m3 = m2.clone();
+            hs.push(loom::thread::spawn(move || {
+                for (ci, &ni) in prog.iter().enumerate() {
+                    let needle = NEEDLES[ni];
+                    // per-thread haystack of >= 64 bytes holding every needle
+                    // at thread-specific offsets
+                    let mut h: Vec<u8> = vec![b'.'; 70 + 3 * t + ci];
+                    h.extend_from_slice(NEEDLES[(ni + 1) % 3]);
+                    h.extend_from_slice(b"....");
+                    h.extend_from_slice(needle);
+                    h.extend_from_slice(b"..");
+                    h.extend_from_slice(NEEDLES[(ni + 2) % 3]);
+                    let exp = h.windows(needle.len()).position(|w| w == needle);
+                    let rexp = h.windows(needle.len()).rposition(|w| w == needle);
+                    let got = memmem::find(&h, needle);
+                    let rgot = memmem::rfind(&h, needle);
+                    if got != exp || rgot != rexp {
+                        let mut m = m3.lock().unwrap();
+                        if m.len() < 8 {
+                            m.push(format!("thread {} call {}: memmem::find/rfind for needle #{} returned {:?}/{:?}, sequential reference {:?}/{:?}", t, ci, ni, got, rgot, exp, rexp));
+                        }
+                    }
+                }
+            }));
+        }
+        for h in hs {
+            h.join().unwrap();
+        }
+        e2.fetch_add(1, Ordering::Relaxed);
+    });
+    let m = mismatches.lock().unwrap().clone();
+    Outcome { executions: executions.load(Ordering::Relaxed), detect_hist: [0; 8], mismatches: m }
+}
+
 fn main() {
     let args = Args::parse();
     let out = args.str("out", "-");
@@ -282,6 +334,30 @@ fn main() {
                     what: format!("[wrong_result] shared searcher: {}", m),
                     replay_argv: vec![],
                     detail: json!({"class": "wrong_result"}),
+                });
+            }
+        }
+    }
+    if only.is_none() {
+        let progs: Vec<(Vec<Vec<usize>>, Option<usize>)> = vec![
+            (vec![vec![0, 0], vec![1]], None),
+            (vec![vec![0, 0], vec![1, 1]], None),
+            (vec![vec![0, 1], vec![1, 0]], None),
+            (vec![vec![0, 0], vec![0, 0]], None),
+            (vec![vec![0, 0], vec![1], vec![2]], Some(2)),
+        ];
+        for (p, bound) in &progs {
+            let o = explore_free_functions(p, *bound);
+            total.evaluations += o.executions;
+            total.states += 1;
+            total.bump_by("interleavings/memmem::find+rfind with per-thread needles", o.executions);
+            for m in o.mismatches {
+                total.violation(Violation {
+                    class: "wrong_result".into(),
+                    key: 2000,
+                    what: format!("[wrong_result] concurrent free functions, program {:?}: {}", p, m),
+                    replay_argv: vec![],
+                    detail: json!({"class": "wrong_result", "program": format!("{:?}", p)}),
                 });
             }
         }
